@@ -8,3 +8,13 @@ contract(
     props=["C17"],
     doc="same query sequence against the lazy and the expanded index; a view exposes exactly the keys satisfying a prefix-closed filter",
 )
+
+contract(
+    "dvc_data.fs:DataFileSystem._get_fs_path",
+    params={},
+    assumed=True, verify=False,
+    bounded=("bounded/index_fs.py", 100, 1500),
+    props=["C17"],
+    doc="[bounded only] the fs adaptor: file contents through cat_file / open / get_file are the bytes held in whichever configured "
+        "storage has the object; ls agrees between the lazy and the expanded index",
+)
